@@ -399,6 +399,33 @@ def run_window(case, ctx):
                             continue
                         vals = a.tolist() if kind == 'series' else (a[:, 0].tolist() if kind == 'frame0' else a[0].tolist())
                         gota.append((labels.index(lab), [int(v) for v in vals]))
+                    # values-only forms and apply: the same windows in the same order as the items form
+                    def wpos(w):
+                        wl_ = (w.index if axis == 0 else w.columns).values.tolist()
+                        return [labels.index(x) for x in wl_]
+
+                    def apos(a):
+                        if a.shape[axis if a.ndim == 2 else 0] == 0:
+                            return []
+                        return [int(v) for v in (a.tolist() if kind == 'series' else (a[:, 0].tolist() if kind == 'frame0' else a[0].tolist()))]
+                    try:
+                        vals_form = [p_ for p_ in (wpos(w) for w in src.iter_window(**kw)) if p_]
+                        arr_form = [p_ for p_ in (apos(a) for a in src.iter_window_array(**kw)) if p_] if arrays is not None else None
+                        anchors = [lab for lab, _ in items]
+                        if len(set(anchors)) == len(anchors):     # shrinking windows (size_increment < 0) can share an anchor label: no labelled result then
+                            applied = src.iter_window(**kw).apply(lambda w: tuple(wpos(w)), dtype=object)
+                            app_form = [(labels.index(l), list(v)) for l, v in applied.items() if v]
+                        else:
+                            app_form = got
+                    except Exception as e:
+                        ctx.violation(f'iter_window-values-forms|raises|{type(e).__name__}|{kind}', **info, error=repr(e))
+                    else:
+                        if vals_form != [p_ for _, p_ in got]:
+                            ctx.violation(f'iter_window|differs-from-items-form|{kind}', **info, got=vals_form, items=[p_ for _, p_ in got])
+                        elif arr_form is not None and arr_form != [p_ for _, p_ in gota]:
+                            ctx.violation(f'iter_window_array|differs-from-items-form|{kind}', **info, got=arr_form, items=[p_ for _, p_ in gota])
+                        elif app_form != got:
+                            ctx.violation(f'iter_window.apply|differs-from-items-form|{kind}', **info, got=app_form, items=got)
                     if got != exp:
                         ctx.violation(f'iter_window_items|windows|{kind}', **info, got=got, expected=exp)
                     elif arrays is not None and gota != exp:
